@@ -171,3 +171,36 @@ Fixpoint run_from (w : world) (ops : list op) : world * list out :=
   end.
 
 Definition run (ops : list op) : world * list out := run_from world0 ops.
+
+(* ---------- stringIdentifierProvider (StringFactory.GetStringProvider(fallback)) ----------
+   A stateless wrapper: a node of its own string factory keeps its label, any other node gets the label of the
+   fallback provider (here the p-th UUID provider, as the command line tool configures it). *)
+Inductive sop := XBase (o : op) | XGetS (sf p k : nat).
+Inductive sout := YBase (r : out) | YStr (l : bytes).
+
+Definition own_label (sf : nat) (b : bid) : option bytes :=
+  match b with
+  | BStr sf' l => if Nat.eqb sf' sf then Some l else None
+  | _ => None
+  end.
+
+Definition xstep (w : world) (x : sop) : world * sout :=
+  match x with
+  | XBase o => let '(w', r) := step w o in (w', YBase r)
+  | XGetS sf p k =>
+      match option_map (own_label sf) (nth_error (w_nodes w) k) with
+      | Some (Some l) => (w, YStr l)
+      | _ => let '(w', r) := step w (OGetU p k) in (w', YBase r)
+      end
+  end.
+
+Fixpoint xrun_from (w : world) (xs : list sop) : world * list sout :=
+  match xs with
+  | [] => (w, [])
+  | x :: xs' =>
+      let '(w', r) := xstep w x in
+      let '(w'', rs) := xrun_from w' xs' in
+      (w'', r :: rs)
+  end.
+
+Definition xrun (xs : list sop) : world * list sout := xrun_from world0 xs.
